@@ -1,3 +1,4 @@
+import TempestVerif.Model.HGMM
 /-
   Model of the label / proposal-mode bookkeeping between
     * `ModeStatistics.from_particles`   (tempest/modes.py)     — builds the modes,
@@ -57,6 +58,26 @@ def modeIndexOpt (stored : Option (List Nat)) (nearest : Nat) (a : Nat) : Nat :=
   match stored with
   | none => a
   | some st => modeIndex st nearest a
+
+/-- `mode_index` for one particle with the nearest-mean fallback INSIDE the model: `drow` = the particle's row of
+    `dist = ||u - means||` (one entry per mode; only computed/consulted for a label without a mode),
+    `np.argmin(dist, axis=1)` = first minimum (`Model.HGMM.argmin`; `none` only on an empty row, i.e. `K = 0`) -/
+def modeIndexD {α : Type} [Sc α] (stored : List Nat) (drow : List α) (a : Nat) : Option Nat :=
+  let i := min (searchsorted stored a) (stored.length - 1)
+  if stored[i]? == some a then some i else Model.HGMM.argmin drow
+
+/-- `from_particles` / `from_global`: `if ~np.isfinite(dof): dof = dof_fallback`.
+    `none` = `fit_mvstud` returned `inf` (the representation used by C19's model of the fit) -/
+def applyDofFallback {D : Type} (nu : Option D) (fallback : D) : D :=
+  match nu with
+  | some v => v
+  | none => fallback
+
+/-- core.py wiring of the clusterer: `max_iterations = 1000 if n_max_clusters is None else n_max_clusters - 1`.
+    (For `n_max_clusters = 0` Python gives `-1`, Nat gives `0`: either way `while iteration < max_iterations` never runs.) -/
+def wiredMaxIterations : Option Nat → Nat
+  | none => 1000
+  | some n => n - 1
 
 /-- second component of `mode_index`: `self.labels[index]`, written back to `state["assignments"]` by `Mutator.run` -/
 def relabel (stored : List Nat) (nearest : Nat) (a : Nat) : Option Nat := stored[modeIndex stored nearest a]?
